@@ -65,14 +65,15 @@ def handle (line : String) : String :=
       let np ← np.toNat?
       let (pps, rest) ← pools? nl np rest
       match rest with
-      | ["R", mt, label, pre, cpu, mem, sto] =>
+      | ["R", mt, label, pre, cpu, mem, sto, pvc] =>
         let r : Request := ⟨← optStr mt, ← optStr label, ← optBool pre, ← optNat cpu, ← optMem mem, ← optNat sto⟩
+        let pvc ← optNat pvc
         let locs := (List.range nl).map fun i => s!"l{i}"
         let price : Pool → String → Nat × Nat × Nat → Nat := fun p l _ =>
           match pps.find? (fun (q : Pool × List Nat) => q.1.name == p.name) with
           | some q => (q.2.getD ((l.drop 1).toString.toNat?.getD 0) 0)
           | none => 0
-        pure (render (frontEnd price locs (pps.map Prod.fst) ⟨jn, jc⟩ d cloud r))
+        pure (render (frontEndJob price locs (pps.map Prod.fst) ⟨jn, jc⟩ d cloud pvc r))
       | _ => none).getD "bad-op"
   | _ => "bad-op"
 
